@@ -47,7 +47,9 @@ META = {
         'range and the save/restore round trip run there); bytes that back nothing (bank/page tails) are only '
         'compared block-vs-byte; blocks wrapping past offset FFFF or leaving A0000-BFFFF are not generated; pages '
         'that are not reachable below C0000 (A000: within 64K) are not addressed. EGA registers are driven as pcbasic '
-        'exposes them: OUT &H3C4,2:OUT &H3C5,mask (map mask) and OUT &H3CE,4:OUT &H3CF,plane (read map).'),
+        'exposes them: OUT &H3C4,2:OUT &H3C5,mask (map mask) and OUT &H3CE,4:OUT &H3CF,plane (read map); after a mode is '
+        '(re)entered by a mode change or in a new session of the same process they must be at the defaults (read map 0, all '
+        'planes written): access with untouched registers is compared with access after programming the defaults.'),
     'rule': ('case = (adapter, screen, width, operation, linear offset, length/value, plane/mask); distinct by that tuple; '
              'non-trivial = the bytes concerned are not all equal (blocks) / the covered content is non-blank or the '
              'poked value differs from the old byte (bytes)'),
@@ -56,7 +58,8 @@ META = {
                     'twin sessions driven by the same statements are in the same state'],
     'require_counters': {'any': ['modes_covered', 'bank_crossing_blocks_read', 'bank_crossing_blocks_written',
                                  'page_crossing_blocks_read', 'tail_blocks_read', 'mid_row_start_blocks',
-                                 'peek_encoding_checked', 'poke_checked', 'planes_exercised', 'shifted_defseg_blocks']},
+                                 'peek_encoding_checked', 'poke_checked', 'planes_exercised', 'shifted_defseg_blocks',
+                                 'register_default_checks']},
     'timeout': {'quick': 900, 'thorough': 7200},
 }
 
@@ -86,7 +89,7 @@ def all_combos():
 
 SIZES = {
     #            peeks  rblocks wblocks pokes  big
-    'quick':    (500,   40,     14,     90,    1),
+    'quick':    (420,   36,     12,     80,    1),
     'thorough': (2500,  420,    110,    500,   4),
 }
 
@@ -847,6 +850,123 @@ def run_mode(harness, res, rng, adapter, scr, width, tier):
             res.inconclusive('C34 %s SCREEN %d width %d: %s' % (adapter, scr, width, e.args[0]))
     finally:
         mode.close()
+    if planar:
+        register_defaults_check(harness, res, rng, adapter, scr, width)
+
+
+def register_defaults_check(harness, res, rng, adapter, scr, width):
+    """
+    EGA/VGA plane registers: whenever a mode is (re)entered - by a mode change in the same session or by a new
+    session in the same process - video memory is accessed with the documented defaults (read map 0, all planes
+    written), whatever was programmed before or elsewhere; and one session's registers do not act on another's.
+    Model-free: behaviour with untouched registers == behaviour after programming the defaults explicitly;
+    plus the plane-0 encoder where the layout is modelled.
+    """
+    layout = vm.layouts_for(adapter)[(scr, width)]
+    mode = Mode(harness, res, adapter, scr, width, layout)
+    nattr = 16 if layout.planes else 4
+    W, H = layout.width, layout.height
+    enter = b'SCREEN %d' % scr
+    boxes = []
+
+    def new_box():
+        b = harness.Box(**ADAPTERS[adapter])
+        boxes.append(b)
+        mode.ex(b, enter)
+        return b
+
+    def draw(b):
+        r2 = random.Random('C34:regs:%s:%d' % (adapter, scr))
+        for i in range(14):
+            x, y = r2.randrange(W - 40), r2.randrange(H - 30)
+            mode.ex(b, b'LINE(%d,%d)-(%d,%d),%d,BF' % (x, y, x + r2.randint(9, W // 3), y + r2.randint(4, H // 4), 1 + i % (nattr - 1)))
+        # the cell used by the write test: 8 pixels of a colour with some plane bits set and some clear
+        mode.ex(b, b'LINE(0,0)-(15,3),%d,BF' % (5 if nattr == 16 else 1))
+
+    offs = sorted(set([layout.row_bytes * r2 + c for r2 in range(5, H, max(1, H // 23)) for c in (1, layout.row_bytes // 3, layout.row_bytes - 2)]))
+
+    def peeks(b):
+        mode.defseg(b, layout.segment)
+        return [mode.ev(b, b'PEEK(%d)' % o) for o in offs]
+
+    def points(b):
+        return [mode.ev(b, b'POINT(%d,1)' % x) for x in range(8)]
+
+    def check_defaults(b, scenario, p, m):
+        case = {'mode': mode.tag, 'op': 'register-defaults', 'scenario': scenario, 'read_plane_programmed_before': p, 'map_mask_programmed_before': m}
+        res.case((adapter, scr, 'regs', scenario, p, m))
+        res.count('register_default_checks')
+        draw(b)
+        untouched = peeks(b)
+        if layout.planes:
+            snap = Snap(b.impl, False)
+            exp = [layout.expected(snap, o, 0) for o in offs]
+            if untouched != exp:
+                i = next(i for i in range(len(offs)) if untouched[i] != exp[i])
+                res.violation('planes:read-plane-not-reset:after-%s' % scenario,
+                              '%s SCREEN %d: %s (read map %d was programmed before): PEEK at offset &H%X with untouched registers = %d, plane 0 holds %d' % (
+                                  adapter, scr, scenario, p, offs[i], untouched[i], exp[i]), case)
+                return
+        mode.set_read_plane(b, 0)
+        explicit = peeks(b)
+        if untouched != explicit:
+            i = next(i for i in range(len(offs)) if untouched[i] != explicit[i])
+            res.violation('planes:read-plane-not-reset:after-%s' % scenario,
+                          '%s SCREEN %d: %s (read map %d was programmed before): PEEK at offset &H%X = %d with untouched registers but %d after OUT &H3CF,0' % (
+                              adapter, scr, scenario, p, offs[i], untouched[i], explicit[i]), case)
+            return
+        if len(set(untouched)) < 2:
+            # e.g. a monochrome EGA mode whose default read map addresses an unused plane: still a valid comparison
+            res.count('register_checks_where_default_plane_reads_blank')
+        # write side: POKE with untouched registers == POKE after programming "all planes"
+        mode.defseg(b, layout.segment)
+        mode.ex(b, b'POKE %d,255' % layout.row_bytes)          # row y=1, pixels 0..7
+        p1 = points(b)
+        mode.set_mask(b, 15)
+        mode.ex(b, b'LINE(0,0)-(15,3),%d,BF' % (5 if nattr == 16 else 1))
+        mode.ex(b, b'POKE %d,255' % layout.row_bytes)
+        p2 = points(b)
+        if p1 != p2 or (layout.planes and p1 != [15] * 8):
+            res.violation('planes:write-mask-not-reset:after-%s' % scenario,
+                          '%s SCREEN %d: %s (map mask %d was programmed before): POKE 255 with untouched registers gives pixels %r, with all planes enabled %r' % (
+                              adapter, scr, scenario, m, p1, p2), case)
+
+    try:
+        for p, m in ((rng.choice([1, 2, 3]), rng.choice([1, 2, 4, 8])), (3, 2), (1, 8)):
+            # (1) leave the mode and come back
+            x = new_box()
+            mode.set_read_plane(x, p)
+            mode.set_mask(x, m)
+            mode.ex(x, b'SCREEN 0')
+            mode.ex(x, enter)
+            check_defaults(x, 'mode-change', p, m)
+            # (2) a new session in the same process while another one has the registers programmed
+            mode.set_read_plane(x, p)
+            mode.set_mask(x, m)
+            y = new_box()
+            check_defaults(y, 'new-session', p, m)
+            # (3) one session's registers do not act on another session
+            z = new_box()
+            draw(z)
+            before = peeks(z)
+            mode.set_read_plane(x, (p % 3) + 1)
+            mode.set_mask(x, m)
+            after = peeks(z)
+            res.case((adapter, scr, 'regs', 'isolation', p, m))
+            if before != after:
+                res.violation('planes:register-state-shared-between-sessions',
+                              '%s SCREEN %d: OUT &H3CF in one session changed what PEEK returns in another session of the same process' % (adapter, scr),
+                              {'mode': mode.tag, 'op': 'register-isolation'})
+            for b in boxes:
+                b.close()
+            del boxes[:]
+            mode.seg_now = {}
+    except Abort as e:
+        if e.args and e.args[0]:
+            res.inconclusive('C34 %s SCREEN %d register defaults: %s' % (adapter, scr, e.args[0]))
+    finally:
+        for b in boxes:
+            b.close()
 
 
 def directed(harness, res):
@@ -872,6 +992,9 @@ def directed(harness, res):
             res.inconclusive('C34 directed: %s' % e.args[0])
     finally:
         mode.close()
+    # plane registers are back at their defaults after a mode change / in a new session
+    for adapter, scr, width in (('ega', 9, 80), ('vga', 7, 40), ('egamono', 10, 80), ('ega64k', 9, 80)):
+        register_defaults_check(harness, res, random.Random('C34:directed:regs'), adapter, scr, width)
     # the same shape in a four-bank mode (PCjr SCREEN 5) and Tandy SCREEN 6
     for adapter, scr, width in (('pcjr', 5, 40), ('tandy', 6, 80), ('hercules', 3, 80)):
         layout = vm.layouts_for(adapter)[(scr, width)]
